@@ -60,10 +60,10 @@ type L2Params struct {
 	Cross    string   `json:"cross,omitempty"` // image-copy: same | from-other | to-other
 }
 
+// (ordered so that rapid's preference for early elements favours the operations with many requests)
 var l2Ops = []string{
-	"blob-get", "blob-head", "blob-put", "blob-put-chunked", "blob-delete", "blob-mount", "blob-copy",
-	"manifest-get", "manifest-head", "manifest-put", "manifest-delete",
-	"tag-list", "tag-delete", "referrer-list", "repo-list", "ping", "image-copy",
+	"image-copy", "tag-delete", "blob-put-chunked", "manifest-delete", "manifest-put", "blob-copy", "referrer-list", "tag-list",
+	"blob-put", "blob-get", "manifest-get", "blob-delete", "blob-mount", "manifest-head", "blob-head", "repo-list", "ping",
 }
 
 const (
@@ -204,6 +204,7 @@ type l2env struct {
 
 func setupL2(c Case, withFaults bool) *l2env {
 	w := newWorld(c)
+	w.l2 = true
 	// count bound of clause (2). A server may legitimately accept one byte per PATCH (the
 	// largest blob any operation pushes is the ~500 byte placeholder config of a tag delete),
 	// so the cap is far above that; endless loops reach it in well under a second.
@@ -218,6 +219,11 @@ func setupL2(c Case, withFaults bool) *l2env {
 		f := &h.Feat
 		f.Referrers, f.ReferrersPage, f.TagPage = p.Feat.Referrers, p.Feat.ReferrersPage, p.Feat.TagPage
 		f.TagListNoRepo404 = true
+		if n != upName && w.spec[n].Has != "has" {
+			// a mirror that lacks the repository must say so: the referrers API of the model answers
+			// "200, empty list" for anything it does not know, which a client cannot tell from the truth
+			f.Referrers = false
+		}
 		if n == upName {
 			f.LocStyle, f.ChunkMin, f.PatchAccept, f.PatchPartialMode = p.Feat.LocStyle, p.Feat.ChunkMin, p.Feat.PatchAccept, p.Feat.PartialMode
 			f.RefuseMono, f.Early201, f.TagDelete, f.MountGrant, f.AnonMountStatus = p.Feat.RefuseMono, p.Feat.Early201, p.Feat.TagDelete, p.Feat.MountGrant, p.Feat.AnonMount
@@ -491,6 +497,19 @@ func (e *l2env) runOp(c Case) l2Result {
 	return res
 }
 
+// sentIgnoreErr recognises the three probes the client sends with "ignore
+// errors" (no retry, no back-off): the anonymous mount, the tag DELETE and the
+// first page of the referrers API.
+func sentIgnoreErr(e *rm.Entry) bool {
+	switch e.Class {
+	case "upload-mount":
+		return !strings.Contains(e.RawQuery, "from=")
+	case "manifest-delete":
+		return !strings.Contains(e.Ref, ":")
+	}
+	return false
+}
+
 func sequentialOp(op string) bool { return op != "image-copy" }
 
 var l2BackoffClasses = map[string]bool{"blob-get": true, "blob-head": true, "manifest-get": true, "manifest-head": true, "manifest-put": true}
@@ -540,7 +559,7 @@ func runL2(c Case, ev *evid.Collector) (vs []*evid.Violation, inconclusive strin
 	f, lackInj, spoiled := 0, 0, false
 	hit := map[string]bool{}
 	for _, e := range es {
-		if e.Fault == "" && e.Status >= 400 && e.Status != 404 && e.Status != 416 && e.Status != 401 {
+		if e.Fault == "" && e.Status >= 400 && e.Status != 404 && e.Status != 416 && e.Status != 401 && !sentIgnoreErr(e) {
 			// a natural error status of the server (refused monolithic PUT, unsupported method ...) is
 			// counted by the client's per-host back-off counter like a fault: it uses up the budget
 			f++
@@ -553,6 +572,12 @@ func runL2(c Case, ev *evid.Collector) (vs []*evid.Violation, inconclusive strin
 		switch ec := w.classify(e); ec.kind {
 		case "transient":
 			f++
+			if sentIgnoreErr(e) {
+				// the anonymous mount and the tag DELETE are probes that are deliberately not retried: a
+				// fault on them sends the operation down its fall-back path, whose outcome depends on
+				// what else the server supports; nothing is promised about the result then
+				spoiled = true
+			}
 		case "lack-injected":
 			if e.Host == upName || e.Host == othName {
 				spoiled = true
